@@ -254,8 +254,22 @@ func engGen(nCorpora, nQueries int) {
 			c.objs = append(c.objs, s)
 		}
 		v.es.e = curEpoch
+		directed := []querySpec{
+			{Filters: []filterSpec{{K: object.AttributeAssociatedObject, Op: 3}}, Attrs: []string{object.AttributeAssociatedObject}},
+			{Filters: []filterSpec{{K: "N", Op: 3}}, Attrs: []string{"N"}},
+			{Filters: []filterSpec{{K: object.FilterRoot}}, Attrs: []string{object.FilterRoot}},
+			{Filters: []filterSpec{{K: object.FilterPayloadChecksum, Op: 2, V: "00"}}, Attrs: []string{object.FilterPayloadChecksum}},
+			{Filters: []filterSpec{{K: object.AttributeAssociatedObject, Op: 2, V: "x"}}, Attrs: []string{object.AttributeAssociatedObject}},
+			{Filters: []filterSpec{{K: object.FilterSplitID, Op: 2, V: "x"}}, Attrs: []string{object.FilterSplitID, "N"}},
+			{Filters: []filterSpec{{K: "N", Op: 6, V: "-" + max256}}, Attrs: []string{"N"}},
+		}
 		for i := 0; i < nQueries; i++ {
-			q := c.genEngQuery()
+			var q querySpec
+			if i < 2 {
+				q = pick(directed)
+			} else {
+				q = c.genEngQuery()
+			}
 			if len(q.Filters) > 0 && len(q.Attrs) == 0 && rnd.chance(50) {
 				q.Attrs = []string{q.Filters[0].K} // what Server.ProcessSearch does for filtered queries
 			}
